@@ -394,6 +394,12 @@ func judgePam(c pamCase, rr runResult) string {
 		return "VERIF-INFRA no RC line: " + rr.out + rr.stderr
 	}
 	want := c.expectOK()
+	if want && rr.rc != pamSuccess && !c.ReadAll && c.End == "close" {
+		// the server replies and closes without having read the whole request: whether the module's remaining writes
+		// fail (EPIPE -> non-success, legitimately) or it gets to read the OK is a race the property does not constrain
+		vlib.Class("early-close-while-module-still-writes(either verdict)")
+		want = false
+	}
 	if (rr.rc == pamSuccess) != want {
 		return fmt.Sprintf("pam_sm_authenticate returned %d, but the reply as the module could read it %s begin with OK", rr.rc, map[bool]string{true: "does", false: "does not"}[want])
 	}
